@@ -799,6 +799,11 @@ func deviceAttest01Validate(ctx context.Context, ch *Challenge, db DB, jwk *jose
 	if err != nil {
 		return WrapErrorISE(err, "error loading authorization")
 	}
+	// The authorization ID comes from the request URL: the fingerprint must only
+	// ever be stored in an authorization of the account that owns the challenge.
+	if az.AccountID != ch.AccountID {
+		return NewError(ErrorUnauthorizedType, "authorization '%s' does not belong to the account that owns challenge '%s'", az.ID, ch.ID)
+	}
 
 	// Parse payload.
 	var p payloadType
